@@ -38,16 +38,44 @@ type vTransport struct {
 	closed   chan struct{}
 	isClosed bool
 	closes   int
+
+	// gates: input from offset gatePos[i] on is delivered only once gateWrites[i] Write calls have been seen
+	gatePos    []int
+	gateWrites []int
+	wake       chan struct{}
+}
+
+// vGate makes the bytes from offset pos on available only after the endpoint has written n times.
+func (t *vTransport) vGate(pos, n int) {
+	t.gatePos = append(t.gatePos, pos)
+	t.gateWrites = append(t.gateWrites, n)
+}
+
+func (t *vTransport) gateLimit() int {
+	lim := len(t.in)
+	for i, p := range t.gatePos {
+		if len(t.writes) < t.gateWrites[i] && p < lim {
+			lim = p
+		}
+	}
+	return lim
 }
 
 func vNewTransport(in []byte) *vTransport {
-	return &vTransport{in: in, closed: make(chan struct{})}
+	return &vTransport{in: in, closed: make(chan struct{}), wake: make(chan struct{}, 1)}
 }
 
 func (t *vTransport) Read(p []byte) (int, error) {
 	t.reads++
 	if t.isClosed {
 		return 0, vErrTransportClosed
+	}
+	for t.pos < len(t.in) && t.pos >= t.gateLimit() {
+		select {
+		case <-t.wake:
+		case <-t.closed:
+			return 0, vErrTransportClosed
+		}
 	}
 	if t.pos >= len(t.in) {
 		switch t.endMode {
@@ -62,7 +90,7 @@ func (t *vTransport) Read(p []byte) (int, error) {
 			return 0, vErrTransportClosed
 		}
 	}
-	n := len(t.in) - t.pos
+	n := t.gateLimit() - t.pos
 	if t.reads == 1 && t.first > 0 {
 		if t.first < n {
 			n = t.first
@@ -92,6 +120,10 @@ func (t *vTransport) Write(p []byte) (int, error) {
 	}
 	t.out = append(t.out, p...)
 	t.writes = append(t.writes, len(t.out))
+	select {
+	case t.wake <- struct{}{}:
+	default:
+	}
 	return len(p), nil
 }
 
